@@ -4,10 +4,13 @@ import (
 	"context"
 	"fmt"
 	"net/netip"
+	"sync"
+	"time"
 
 	"github.com/mycoria/mycoria/config"
 	"github.com/mycoria/mycoria/m"
 	"github.com/mycoria/mycoria/state"
+	"github.com/mycoria/mycoria/storage"
 )
 
 // instStub implements the small instance interfaces of state (Identity, Config).
@@ -91,4 +94,45 @@ func newNodeWithID(id *m.Address) (*node, error) {
 	n := &node{id: id}
 	n.st = state.New(&instStub{id: id, cfg: &config.Config{}}, nil)
 	return n, nil
+}
+
+// rendezStore wraps a storage backend; while armed, a GetRouter call waits (briefly) for a second
+// concurrent GetRouter call before it proceeds.  Code that looks a router up under a lock never
+// has two lookups in flight (the wait runs out and nothing changes); code that performs the
+// lookup outside its lock gets exactly the interleaving it has to withstand.
+type rendezStore struct {
+	storage.Storage
+	mu      sync.Mutex
+	armed   bool
+	waiting int
+	ch      chan struct{}
+}
+
+func newRendezStore(s storage.Storage) *rendezStore {
+	return &rendezStore{Storage: s}
+}
+
+func (r *rendezStore) arm(on bool) {
+	r.mu.Lock()
+	r.armed, r.waiting, r.ch = on, 0, make(chan struct{})
+	r.mu.Unlock()
+}
+
+func (r *rendezStore) GetRouter(ip netip.Addr) (*storage.StoredRouter, error) {
+	r.mu.Lock()
+	if !r.armed {
+		r.mu.Unlock()
+		return r.Storage.GetRouter(ip)
+	}
+	r.waiting++
+	if r.waiting == 2 {
+		close(r.ch)
+	}
+	ch := r.ch
+	r.mu.Unlock()
+	select {
+	case <-ch:
+	case <-time.After(120 * time.Millisecond):
+	}
+	return r.Storage.GetRouter(ip)
 }
